@@ -58,6 +58,20 @@ fn main() {
         Some("worker") => driver::worker_main(&args[1..]),
         Some("exec-plan") => driver::exec_plan_main(&args[1]),
         Some("commit-hashes") => driver::commit_hashes_main(&args[1]),
+        Some("dump-hash") => {
+            // dump-hash <env dir>: hash and size of what the unnamed database of that environment holds
+            let env = unsafe { heed::EnvOpenOptions::new().read_txn_without_tls().map_size(1usize << 30).max_readers(16).open(&args[1]) }.expect("open");
+            let rtxn = env.read_txn().unwrap();
+            let db: Option<exec::RawDb> = env.open_database(&rtxn, None).unwrap();
+            match db {
+                Some(db) => {
+                    let d = snapshot::dump_txn(&rtxn, db);
+                    println!("{} keys, hash {:x}", d.len(), decode::dump_hash(&d));
+                }
+                None => println!("no database"),
+            }
+            0
+        }
         Some("replay") => driver::replay_main(&args[1]),
         Some("gen") => {
             // gen <prop> <tier> <i>: print the plan of run i
